@@ -352,9 +352,10 @@ class C19(Prop):
                     for c in (1, 2):
                         for pat in PATS:
                             st_cases.append((0, pat, sender, hv, 1, c, 2, 0))
-                    for p in protos(hv)[1:]:                       # gRPC, gRPC-Web
-                        for pat in ([0, 0], [0, 1], [0, 0, 0], [0, 1, 0]):
-                            st_cases.append((0, pat, sender, hv, p, nxt((1, 2)), 2, 0))
+                    for p in protos(hv)[1:]:                       # gRPC, gRPC-Web (status in trailers, compressed or not)
+                        for c in (1, 2):
+                            for pat in ([0, 0], [0, 1], [0, 0, 0], [0, 1, 0]):
+                                st_cases.append((0, pat, sender, hv, p, c, 2, 0))
                     for pat in PATS:                               # half-duplex bidi
                         st_cases.append((0, pat, sender, hv, nxt(protos(hv)), nxt((1, 2)), 4, 0))
             for sender in (0, 1, 2):                               # full-duplex bidi (HTTP/2 only)
